@@ -109,6 +109,12 @@ def resolve(spec, results, host=None):
 def call(conn, op, results):
     """Execute one op spec on conn.  Returns ('ok', value) | ('exc', e)."""
     name = op['op']
+    if name == '$set_default_namespace':
+        try:
+            conn.default_namespace = op['ns']
+            return ('ok', None)
+        except Exception as e:  # pylint: disable=broad-except
+            return ('exc', e)
     kw = {k: resolve(v, results) for k, v in op.get('a', {}).items()}
     pos = [resolve(v, results) for v in op.get('p', [])]
     try:
@@ -401,8 +407,14 @@ class OpGen:
             params = []
             for q in m['params']:
                 if r.random() < 0.9:
-                    params.append([_case(r, q['name']), mg.gen_value(
-                        r, q['type'], q.get('array', False), 0.1)])
+                    v = mg.gen_value(r, q['type'], q.get('array', False),
+                                     0.1)
+                    if q['type'] == 'datetime' and r.random() < 0.5 and \
+                            '*' not in repr(v):
+                        # Python datetime / timedelta objects are accepted
+                        # wherever a CIM datetime is
+                        v['py'] = True
+                    params.append([_case(r, q['name']), v])
             if r.random() < 0.08:
                 params.append(['Extra', {'t': 'string', 'v': 'x'}])
             # target: instance of class (or subclass) or class itself
@@ -581,9 +593,15 @@ class OpGen:
         raise AssertionError(kind)
 
 
-def gen_program(r, model, default_ns, n, valid_only=False):
+def gen_program(r, model, default_ns, n, valid_only=False,
+                switch_default_ns=False):
     g = OpGen(r, model, default_ns, valid_only)
     ops = []
     for i in range(n):
-        ops.append(g.gen(i, ops))
+        if switch_default_ns and r.random() < 0.08:
+            ns = r.choice(model['namespaces'] + ['root/cimv2', None])
+            ops.append({'op': '$set_default_namespace', 'ns': ns})
+            g.default_ns = ns or 'root/cimv2'
+        else:
+            ops.append(g.gen(i, ops))
     return ops
